@@ -171,9 +171,9 @@ impl Sweep {
             &h.seeds,
             &G3Opts {
                 prefixes: true,
-                suffixes: true,
-                windows: t.pick(3, 6),
-                deletions: true,
+                suffixes: t == Tier::Thorough || mode == Mode::C01,
+                windows: t.pick(2, 6),
+                deletions: t == Tier::Thorough,
                 ends: t.pick(strs(&["", " "]), strs(&["", " ", ".", ",", "?", "\n", "\n\n"])),
                 second_order: t == Tier::Thorough,
             },
@@ -215,11 +215,11 @@ impl Sweep {
                 embed: false,
             });
         } else {
-            // quick: every word next to (before and after) each of the 300 shortest words, which
+            // quick: every word next to (before and after) each of the 150 shortest words, which
             // are the function words most rules key on (bound lowered, nothing sampled)
-            let short: Arc<Vec<String>> = Arc::new(h.vocab.iter().take(300).cloned().collect());
+            let short: Arc<Vec<String>> = Arc::new(h.vocab.iter().take(150).cloned().collect());
             fams.push(Family {
-                name: "G2/pairs(V x V300)".into(),
+                name: "G2/pairs(V x V150)".into(),
                 fes: fe_plain.clone(),
                 generator: Gen::Pairs {
                     vocab: vocab.clone(),
@@ -230,7 +230,7 @@ impl Sweep {
                 embed: false,
             });
             fams.push(Family {
-                name: "G2/pairs(V300 x V)".into(),
+                name: "G2/pairs(V150 x V)".into(),
                 fes: fe_plain.clone(),
                 generator: Gen::Pairs {
                     vocab: short,
@@ -1012,5 +1012,154 @@ impl Job for Sweep {
     fn describe(&self, idx: u64) -> Value {
         let (fam, fe, text) = self.case(idx);
         self.case_json(fam, fe, &text)
+    }
+}
+
+// ---------------------------------------------------------------------------------------------
+// C01 growth clause: pumped inputs u^n for every unit u of one or two alphabet tokens.
+
+pub struct Ladder {
+    pub tier: Tier,
+    pub fes: Vec<FrontEnd>,
+    /// (front-end index, unit)
+    pub cases: Vec<(usize, String)>,
+    pub curated: Arc<FstDictionary>,
+    linter: Option<LintGroup>,
+}
+
+impl Ladder {
+    pub fn new(tier: Tier) -> Self {
+        let fes = frontends::all();
+        let mut cases = vec![];
+        let add_units = |cases: &mut Vec<(usize, String)>, fe: usize, atoms: &[String], pairs: bool| {
+            for a in atoms {
+                cases.push((fe, a.clone()));
+            }
+            if pairs {
+                for a in atoms {
+                    for b in atoms {
+                        if a != b {
+                            cases.push((fe, format!("{a}{b}")));
+                        }
+                    }
+                }
+            }
+        };
+        for (i, f) in fes.iter().enumerate() {
+            match f.name.as_str() {
+                "plain" => {
+                    add_units(&mut cases, i, &sigma_char(), tier == Tier::Thorough);
+                    // long single tokens of every lexical class
+                    for u in ["ab", "1", "a.", "a'", "x@", "a-", "e.g. ", "1st ", "the the ", "http://a.b/", "a@b.co "] {
+                        cases.push((i, u.to_string()));
+                    }
+                }
+                "markdown" => add_units(&mut cases, i, &sigma_md(), tier == Tier::Thorough),
+                "html" => add_units(&mut cases, i, &sigma_html(), tier == Tier::Thorough),
+                "typst" => add_units(&mut cases, i, &sigma_typst(), tier == Tier::Thorough),
+                "lhaskell" => add_units(&mut cases, i, &sigma_lhs(), false),
+                "comment:rust" | "comment:javascript" | "comment:python" | "comment:go" | "comment:java" => {
+                    let lang = f.lang.unwrap();
+                    add_units(&mut cases, i, &sigma_lang(lang), false);
+                }
+                "ls:rust" => {
+                    let lang = f.lang.unwrap();
+                    add_units(&mut cases, i, &sigma_lang(lang), false);
+                }
+                _ => {}
+            }
+        }
+        Self { tier, fes, cases, curated: FstDictionary::curated(), linter: None }
+    }
+
+    fn time_once(&mut self, fe: usize, text: &str) -> f64 {
+        let chars = s2c(text);
+        let curated = self.curated.clone();
+        // a fresh linter for every timing run: the spelling-suggestion and chunk caches of a warm
+        // linter would make the second run of the same text free and the ladder meaningless
+        self.linter = Some(all_on(Dialect::American, curated.clone()));
+        let t0 = std::time::Instant::now();
+        let (parser, dict) = self.fes[fe].prepare(&chars, &curated);
+        let doc = Document::new(text, &parser, &dict);
+        let _ = self.linter.as_mut().unwrap().lint(&doc);
+        t0.elapsed().as_secs_f64()
+    }
+}
+
+impl Job for Ladder {
+    fn n_cases(&self) -> u64 {
+        self.cases.len() as u64
+    }
+    fn run_case(&mut self, idx: u64, out: &mut ChunkOut) {
+        let (fe, unit) = self.cases[idx as usize].clone();
+        let max_pow = self.tier.pick(10, 13);
+        let mut times: Vec<(usize, f64)> = vec![];
+        for p in 6..=max_pow {
+            let n = 1usize << p;
+            let text = unit.repeat(n);
+            let mut best = f64::MAX;
+            for _ in 0..2 {
+                best = best.min(self.time_once(fe, &text));
+                if best > 0.1 {
+                    break; // large enough to be out of the timer noise: one run suffices
+                }
+            }
+            times.push((n, best));
+        }
+        out.count("evaluations", 1);
+        out.count("distinct_nontrivial", 1);
+        out.count("ladder_inputs_timed", times.len() as u64);
+        // two successive doublings both growing faster than n^3.5, above a 50 ms floor
+        let mut bad = false;
+        for w in times.windows(3) {
+            let r1 = w[1].1 / w[0].1.max(1e-9);
+            let r2 = w[2].1 / w[1].1.max(1e-9);
+            if r1 > 11.3 && r2 > 11.3 && w[2].1 > 0.05 {
+                bad = true;
+            }
+        }
+        let slowest = times.last().map(|t| t.1).unwrap_or(0.0);
+        out.outcome(h64(&((slowest * 100.0) as u64).min(50)));
+        if idx % 97 == 0 {
+            out.sample(json!({"engine":"E1","front_end": self.fes[fe].name, "unit": unit, "timings_s": times}));
+        }
+        if bad {
+            out.violation(
+                idx,
+                Violation {
+                    sig: format!("super-polynomial-growth@{}", class_name(self.fes[fe].class)),
+                    case: json!({"engine":"E1","front_end": self.fes[fe].name, "unit": unit, "text": format!("{unit} repeated n times")}),
+                    detail: json!({"timings_s": times}),
+                },
+            );
+        }
+    }
+    fn on_panic(&mut self, idx: u64, p: PanicInfo, out: &mut ChunkOut) {
+        if self.fes.is_empty() {
+            self.fes = frontends::all();
+        }
+        self.linter = None;
+        let (fe, unit) = self.cases[idx as usize].clone();
+        out.count("evaluations", 1);
+        out.violation(
+            idx,
+            Violation {
+                sig: format!("{}@{}:pumped", panic_sig(&p), class_name(self.fes[fe].class)),
+                case: json!({"engine":"E1","front_end": self.fes[fe].name, "unit": unit, "text": format!("{unit} repeated up to 2^{} times", self.tier.pick(10, 13))}),
+                detail: json!({"panic_at": format!("{}:{}", short_file(&p.file), p.line), "msg": p.msg.chars().take(300).collect::<String>()}),
+            },
+        );
+    }
+    fn on_hang(&self, idx: u64, kind: &str) -> Option<Violation> {
+        let (fe, unit) = &self.cases[idx as usize];
+        Some(Violation {
+            sig: format!("{kind}@{}:pumped", class_name(self.fes[*fe].class)),
+            case: json!({"engine":"E1","front_end": self.fes[*fe].name, "unit": unit, "text": format!("{unit} repeated up to 2^{} times", self.tier.pick(10, 13))}),
+            detail: json!({"kind": kind, "note": "the ladder for this unit exceeded the time budget or killed the worker (allocation failure / stack overflow)"}),
+        })
+    }
+    fn describe(&self, idx: u64) -> Value {
+        let (fe, unit) = &self.cases[idx as usize];
+        json!({"front_end": self.fes[*fe].name, "unit": unit})
     }
 }
